@@ -176,3 +176,16 @@ Theorem C11_failed_creation_is_not_clean :
   ~ clean (nrun (ninit [(4, 5); (0, 5)]) [AInstr 0 (QInitApp 0 2)]) (ACreate 0 0 0 [0; 1] 1 true 0).
 Proof. exact failed_creation_is_not_clean. Qed.
 Print Assumptions C11_failed_creation_is_not_clean.
+
+(* a receive-deque entry stores the virtual NUMBER of the delivered half (as the code does); the lookup by number at poll time
+   (remote_get_virtual_ref: first virtual qubit of the node with that number) returns the very qubit that was delivered,
+   which the node still holds and no qubitList of its host refers to *)
+From SQ Require Import Qasm.PerNodeNum.
+Theorem C11_pending_lookup_faithful : forall caps xs,
+  let s := nrun (ninit caps) xs in
+  cleans (ninit caps) xs ->
+  forall nd sk num hd, In (nd, sk, num, hd) (n_pend s) ->
+    hid_of_num (nth_node (n_net s) nd) num = Some hd /\ In hd (hn (nth_node (n_net s) nd)) /\
+    forall p, plookup p (h_qlist (host_at s nd)) <> Some hd.
+Proof. exact pending_lookup_faithful. Qed.
+Print Assumptions C11_pending_lookup_faithful.
